@@ -247,6 +247,8 @@ def _wf_clauses(h: Heap, T, tag: str | None = None, pending=None) -> dict:
         ForAll([n], Implies(mem(n), And(h.ddom(nbd, h._data_id(n)), 0 <= h.cpos(n), h.cpos(n) < h.llen(h.dlst(nbd, h._data_id(n))), h.litem(h.dlst(nbd, h._data_id(n)), h.cpos(n)) == n)), patterns=[h._data_id(n), h.cpos(n)]),
         ForAll([d, e], Implies(And(h.ddom(nbd, d), h.ddom(nbd, e), d != e), h.dlst(nbd, d) != h.dlst(nbd, e)), patterns=[z3.MultiPattern(h.dlst(nbd, d), h.dlst(nbd, e))]),
     )
+    # data ids are ints or strs (DataIdType): `==` on them is value identity
+    c["D"] = ForAll([n], Implies(mem(n), Or(v_is_int(h._data_id(n)), v_is_str(h._data_id(n)))), patterns=[h._data_id(n)])
     c["U"] = ForAll([p, i, j], Implies(And(inP(p), 0 <= i, i < j, j < h.clen(p)), h._data_id(h.child(p, i)) != h._data_id(h.child(p, j))), patterns=[z3.MultiPattern(h.litem(ch(p), i), h.litem(ch(p), j))])
     # typed trees: every member has a str kind different from ANY_KIND
     c["K"] = ForAll([n], Implies(And(mem(n), cls_of(T) == CLS["TypedTree"], attached(n)), And(h._kind(n) != ANY_KIND, h._kind(n) != VNONE, v_is_str(h._kind(n)))), patterns=[h._kind(n)])
@@ -258,9 +260,9 @@ def wf(h: Heap, T, tag=None, only=None, pending=None):
     return And(*[v for k, v in cs.items() if only is None or k in only])
 
 
-WF_STRUCT = ("S1", "S2", "S3", "S4", "S5", "S6", "S6r", "K")
+WF_STRUCT = ("S1", "S2", "S3", "S4", "S5", "S6", "S6r", "K", "D")
 WF_INDEX = ("I1", "I2")
-WF_PROP = {"S1": "C01", "S2": "C01", "S3": "C01", "S4": "C01", "S5": "C01", "S6": "C01", "S6r": "C01", "K": "C01", "I1": "C01", "I2": "C02", "U": "C03"}
+WF_PROP = {"S1": "C01", "S2": "C01", "S3": "C01", "S4": "C01", "S5": "C01", "S6": "C01", "S6r": "C01", "K": "C01", "I1": "C01", "I2": "C02", "U": "C03", "D": "C02"}
 
 
 CTRL = ("SkipBranch", "SelectBranch", "StopTraversal", "StopIteration")
@@ -313,6 +315,30 @@ def upk(h: Heap):
         SPEC_AXIOMS.append(ForAll([n], f(n, 1) == h._parent(n), patterns=[f(n, 1)]))
         _UPK[key] = f
     return _UPK[key]
+
+
+_ANC: dict = {}
+
+
+def anc_chain(h: Heap):
+    """E(c, a): walking up from c (inclusive) through *non-root* nodes meets a.
+         E(c, a)  ==  c != None  and  parent(c) != None  and  (c == a  or  E(parent(c), a))
+    `x is a proper descendant of a`  ==  E(parent(x), a)   (what Node.is_descendant_of computes).
+    The unfolding is triggered by the pair (E(c,a), parent(c)), so it unfolds one level per
+    parent step that actually occurs -- no matching loop.  Well-founded on rank (wf.S4)."""
+    key = h.syms["_parent"].name()
+    if key not in _ANC:
+        f = Function(f"E<{key}>", Ref, Ref, B)
+        c, a = Const(f"c!anc{len(_ANC)}", Ref), Const(f"a!anc{len(_ANC)}", Ref)
+        SPEC_AXIOMS.append(ForAll([c, a], f(c, a) == And(c != NONE, h._parent(c) != NONE, Or(c == a, f(h._parent(c), a))), patterns=[z3.MultiPattern(f(c, a), h._parent(c))]))
+        SPEC_AXIOMS.append(ForAll([a], Not(f(NONE, a)), patterns=[f(NONE, a)]))
+        _ANC[key] = f
+    return _ANC[key]
+
+
+def is_desc(h: Heap, x, a):
+    """x is a direct or indirect child of the (non-root) node a."""
+    return anc_chain(h)(h._parent(x), a)
 
 
 def prelude():
